@@ -146,3 +146,48 @@ Example join_nonvacuous :
   jrun Repaired [Waiter; Completer; Completer; Waiter; Waiter] =
     {| j_result := false; j_entry := false; j_pending := true; j_w := WDone true false; j_c := CDone |}.
 Proof. split; vm_compute; reflexivity. Qed.
+
+(** * A task that has finished before the wait begins: the wait never reports a timeout, whatever
+    its wait time (the [Timeout] move is enabled at every step, so a zero or already expired
+    deadline is included) *)
+Definition step_closed (p : proto) (R : list jst) : bool :=
+  forallb (fun s => forallb (fun a => jmem (jstep p s a) R) moves) R.
+
+Lemma step_closed_run p R : step_closed p R = true -> forall sched s, In s R -> In (fold_left (jstep p) sched s) R.
+Proof.
+  intros Hstep. unfold step_closed in Hstep. rewrite forallb_forall in Hstep.
+  induction sched as [|a sched IH]; intros s Hs; [exact Hs|].
+  cbn [fold_left]. apply IH. specialize (Hstep s Hs). rewrite forallb_forall in Hstep.
+  apply jmem_In. apply Hstep. destruct a; cbn; auto.
+Qed.
+
+(** the completer has inserted the result (its first step) before anything else happens *)
+Definition j_finished : jst := jstep Repaired j0 Completer.
+Definition reach_finished : list jst := close Repaired 40 [j_finished] [j_finished].
+
+Definition not_timed_out_empty (s : jst) : bool :=
+  match j_w s with WDone false _ => false | _ => true end.
+
+Theorem finished_task_never_times_out : forall sched,
+  not_timed_out_empty (fold_left (jstep Repaired) sched j_finished) = true.
+Proof.
+  intro sched.
+  assert (Hc : step_closed Repaired reach_finished = true) by (vm_compute; reflexivity).
+  assert (HP : forallb not_timed_out_empty reach_finished = true) by (vm_compute; reflexivity).
+  rewrite forallb_forall in HP. apply HP. apply (step_closed_run Repaired reach_finished Hc).
+  vm_compute. auto.
+Qed.
+
+(** and the waiter does get it as soon as it moves: one waiter step from any such state where it has
+    not returned yet ends the wait with the result *)
+Theorem finished_task_first_check_succeeds :
+  j_w (jstep Repaired j_finished Waiter) = WDone true false.
+Proof. vm_compute. reflexivity. Qed.
+
+(** a wait that reports a timeout without a result: at that moment the result was not in the map
+    (the task had not finished, or its result had been handed out) *)
+Theorem timeout_only_without_result : forall s,
+  j_w s = W3 -> j_w (jstep Repaired s Timeout) = WDone false true -> j_result s = false.
+Proof.
+  intros s Hw. cbn [jstep]. rewrite Hw. destruct (j_result s); cbn; [discriminate | reflexivity].
+Qed.
